@@ -4,6 +4,7 @@
    gen_table_ok in the generated file), so that they apply to every generated type. *)
 From DV Require Import Base.Prelude Model.NameM Model.SchemaM Proofs.SchemaCodec Proofs.SchemaThm Proofs.SchemaFix Proofs.SchemaTable Proofs.SchemaOrigin.
 From DV Require Proofs.NameValid.
+From DV Require Import Model.DispatchM Proofs.SchemaDispatch.
 Open Scope Z_scope.
 
 (* from_wire(to_wire(x)) = x for every well-formed schema and every value the constructor
@@ -105,6 +106,25 @@ Theorem tsig_origin_roundtrip_refuted :
 Proof. exact tsig_origin_roundtrip_refuted_thm. Qed.
 Print Assumptions tsig_origin_roundtrip_refuted.
 
+(* get_rdata_class (cache + dynamic loading + load_all_types): for every history of lookups
+   and load_all_types calls without an "ANY-first" lookup, each lookup answers the history-free
+   implementation (own module, else class-independent module, else GenericRdata) *)
+Theorem dispatch_history_correct : forall mods all_types h,
+  mods_ok mods = true -> loadable mods all_types = true ->
+  forallb (safe_step mods) h = true ->
+  run_history mods all_types h init_state = expected mods h.
+Proof. intros. apply dispatch_history_correct_thm; assumption. Qed.
+Print Assumptions dispatch_history_correct.
+
+(* known finding C02-dispatch-any-first: the excluded history really changes the answer *)
+Theorem dispatch_any_first_refuted :
+  let mods := [(cIN, 1)] in
+  mods_ok mods = true /\ loadable mods [1] = true /\
+  run_history mods [1] [Query cANY 1; Query cIN 1] init_state = [I 0; I 0] /\
+  stateless mods cIN 1 = Typed cIN 1.
+Proof. exact dispatch_any_first_refuted_thm. Qed.
+Print Assumptions dispatch_any_first_refuted.
+
 (* ---------- non-vacuity: the hypotheses are satisfiable on realistic records ---------- *)
 Definition mx_schema := [FS (FU 2 65535); FS (FName true)].
 Definition mx_value := [VS (VI 10); VS (VN [[109; 97; 105; 108]; [101; 120]; []])].
@@ -162,3 +182,13 @@ Proof.
     unfold NameValid.Valid. cbn. repeat split; try lia; repeat constructor; cbn; try lia; discriminate.
   - eexists. split; vm_compute; reflexivity.
 Qed.
+
+(* dispatch hypotheses are satisfiable and the theorem is not vacuous: a safe history over
+   {IN A, CH A, ANY MX} with load_all_types in the middle *)
+Example dispatch_example :
+  let mods := [(cIN, 1); (cCH, 1); (cANY, 15)] in
+  mods_ok mods = true /\ loadable mods [1; 15] = true /\
+  forallb (safe_step mods) [Query 4 15; LoadAll true; Query cCH 15; Query cCH 1; Query cANY 15; Query 4 1] = true /\
+  run_history mods [1; 15] [Query 4 15; LoadAll true; Query cCH 15; Query cCH 1; Query cANY 15; Query 4 1] init_state
+  = [L [I 255; I 15]; L [I 255; I 15]; L [I 3; I 1]; L [I 255; I 15]; I 0].
+Proof. repeat split; reflexivity. Qed.
